@@ -89,7 +89,7 @@ func (root *Root) ResolveExecutable(
 		for _, vd := range op.Variables {
 			opVars[vd.Name] = vd.Default
 			if vars != nil {
-				if v := vars[vd.Name]; v != nil {
+				if v, has := vars[vd.Name]; has {
 					if ic, _ := vd.Type.(InCoercer); ic != nil { // validated in SDL validation
 						v, err = ic.CoerceIn(v)
 					}
